@@ -225,3 +225,50 @@ M("C09", "data-segment-type", DT, "    segment_type = 0b_100_00000\n    extended
 T("C09", "hex-thresholds", DT, "            if _value <= 0xFF:", "            if _value <= 255:")
 T("C09", "shift-prefix", DT, "_len = USINT.encode(len(path) // 2)", "_len = USINT.encode(len(path) >> 1)")
 T("C09", "format-decimal", DT, "        4: 0b_000_000_10,  # 32-bit", "        4: 2,  # 32-bit")
+
+# ------------------------------------------------------------------ C14
+M("C14", "data-before-path", PC, "        self._msg += [self.service, req_path, self.request_data]", "        self._msg += [self.service, self.request_data, req_path]", ["D14.1"])
+M("C14", "ucmm-no-route", PC, "            msg = [self.service, req_path, self.request_data, self.route_path]", "            msg = [self.service, req_path, self.request_data]", ["D14.1"])
+M("C14", "unsend-drops-data", PC, "                    b\"\".join((self.service, req_path, self.request_data)),", "                    b\"\".join((self.service, req_path)),", ["D14.1"])
+M("C14", "pad-when-even", PU, 'b"\\x00" if msg_len % 2 else b"",', 'b"" if msg_len % 2 else b"\\x00",', ["D14.2"])
+M("C14", "embedded-size-plus1", PU, "            UINT.encode(msg_len),\n            message,", "            UINT.encode(msg_len + 1),\n            message,", ["D14.2"])
+M("C14", "unsend-service-54", PU, "            ConnectionManagerServices.unconnected_send,\n            rp,", "            ConnectionManagerServices.forward_open,\n            rp,", ["D14.2"])
+M("C14", "str-route-no-padlength", CD, "                    parse_cip_route(route_path), length=True, pad_length=True\n", "                    parse_cip_route(route_path), length=True\n", ["D14.3"])
+M("C14", "decode-although-invalid", PC, "        if self.data_type is None:\n            self.value = self.data\n        elif self.is_valid():\n            try:\n                self.value = self.data_type.decode(self.data)\n            except Exception as err:\n                self.__log.exception(\"Failed to parse reply\")\n                self._error = f\"Failed to parse reply - {err}\"\n                self.value = None\n\n\nclass GenericConnectedRequestPacket", "        if self.data_type is None:\n            self.value = self.data\n        else:\n            try:\n                self.value = self.data_type.decode(self.data)\n            except Exception as err:\n                self.__log.exception(\"Failed to parse reply\")\n                self._error = f\"Failed to parse reply - {err}\"\n                self.value = None\n\n\nclass GenericConnectedRequestPacket", ["D14.4"])
+M("C14", "plc-name-class-65", LX, "                class_code=ClassCode.program_name,\n                instance=1,", "                class_code=b\"\\x65\",\n                instance=1,", ["D14.5"])
+M("C14", "get-time-service", LX, "            service=Services.get_attribute_list,\n            class_code=ClassCode.wall_clock_time,", "            service=Services.get_attribute_single,\n            class_code=ClassCode.wall_clock_time,", ["D14.5"])
+M("C14", "module-info-no-unsend", CD, "                connected=False,\n                unconnected_send=True,\n                route_path=PADDED_EPATH.encode(", "                connected=False,\n                unconnected_send=False,\n                route_path=PADDED_EPATH.encode(", ["D14.5"])
+M("C14", "tag-drops-error", CD, "        return Tag(name, response.value, data_type, error=response.error)", "        return Tag(name, response.value, data_type)", ["D14.4"])
+M("C14", "service-no-normalise", PC, "        self.service = service if isinstance(service, bytes) else bytes([service])\n        self.request_data = request_data\n        self.route_path = route_path", "        self.service = service if isinstance(service, bytes) else bytes(service)\n        self.request_data = request_data\n        self.route_path = route_path", ["D14.1"])
+M("C14", "set-time-attr-order", LX, "        _struct = Struct(UINT, UINT, ULINT)", "        _struct = Struct(UINT, ULINT, UINT)", ["D14.5"])
+M("C14", "swap-class-instance", CD, '            "class_code": class_code,\n            "instance": instance,', '            "class_code": instance,\n            "instance": class_code,', ["D14.3"])
+T("C14", "pad-len", PU, 'b"\\x00" if msg_len % 2 else b"",', 'b"\\x00" if len(message) % 2 else b"",')
+
+# ------------------------------------------------------------------ C15
+M("C15", "no-comma", CD, 'path = path.replace("\\\\", "/").replace(",", "/")', 'path = path.replace("\\\\", "/")', ["D15.1"])
+M("C15", "port-gt-65535", CD, "if port <= 0 or port >= 65535:", "if port < 0 or port > 65536:", ["D15.1"])
+M("C15", "no-odd-test", CD, "            if len(segments) % 2:\n                raise RequestError(\n                    \"Invalid connection path, must contain segment pairs(port/link), \"\n                    f\"{len(segments)} segments provided.\"\n                )\n", "", ["D15.2"])
+M("C15", "except-valueerror", CD, "    except RequestError:\n        raise\n    except Exception as err:\n        raise RequestError(f\"Failed to parse cip route: {path}\") from err", "    except RequestError:\n        raise\n    except ValueError as err:\n        raise RequestError(f\"Failed to parse cip route: {path}\") from err", ["D15.3"])
+M("C15", "bp-2", DT, '        "bp": 0b_000_0_0001,', '        "bp": 0b_000_0_0010,', ["D15.4"])
+M("C15", "logix-no-autoslot", LX, "    _auto_slot_cip_path = True", "    _auto_slot_cip_path = False", ["D15.6"])
+M("C15", "port-get-default", DT, "            port = cls.port_segments[segment.port]", "            port = cls.port_segments.get(segment.port, 1)", ["D15.5"])
+M("C15", "no-ip-validation", DT, "                ipaddress.ip_address(segment.link_address)\n                link = segment.link_address.encode()", "                link = segment.link_address.encode()", ["D15.5", "D9.6"])
+M("C15", "single-without-autoslot", CD, "        elif len(segments) == 1 and auto_slot:", "        elif len(segments) == 1:", ["D15.2"])
+M("C15", "pairs-from-1", CD, "pairs = (segments[i : i + 2] for i in range(0, len(segments), 2))", "pairs = (segments[i : i + 2] for i in range(1, len(segments), 2))", ["D15.2"])
+M("C15", "init-no-flag", CD, "ip, port, _path = parse_connection_path(path, self._auto_slot_cip_path)", "ip, port, _path = parse_connection_path(path)", ["D15.6"])
+M("C15", "raise-valueerror-port", CD, "                if port <= 0 or port >= 65535:\n                    raise RequestError(f'Invalid port: {port}')", "                if port <= 0 or port >= 65535:\n                    raise ValueError(f'Invalid port: {port}')", ["D15.1", "D15.3"])
+T("C15", "port-range-rewrite", CD, "if port <= 0 or port >= 65535:", "if not 0 < port < 65535:")
+
+# ------------------------------------------------------------------ C16
+M("C16", "swap-vendor-product", CT, "class ModuleIdentityObject(\n    Struct(\n        UINT(\"vendor\"),\n        UINT(\"product_type\"),", "class ModuleIdentityObject(\n    Struct(\n        UINT(\"product_type\"),\n        UINT(\"vendor\"),", ["D16.1"])
+M("C16", "serial-uint", CT, "        UDINT(\"serial\"),\n        SHORT_STRING(\"product_name\"),\n    )\n):\n    @classmethod\n    def _decode(cls, stream: BytesIO):\n        values = super(ModuleIdentityObject", "        UINT(\"serial\"),\n        SHORT_STRING(\"product_name\"),\n    )\n):\n    @classmethod\n    def _decode(cls, stream: BytesIO):\n        values = super(ModuleIdentityObject", ["D16.1"])
+M("C16", "list-serial-04x", CT, "        values[\"serial\"] = f\"{values['serial']:08x}\"\n\n        return values\n\n\nStructTemplateAttributes", "        values[\"serial\"] = f\"{values['serial']:04x}\"\n\n        return values\n\n\nStructTemplateAttributes", ["D16.2"])
+M("C16", "unknown-case", CT, "        values[\"vendor\"] = VENDORS.get(values[\"vendor\"], \"UNKNOWN\")\n        values[\"serial\"] = f\"{values['serial']:08x}\"\n\n        return values\n\n\nStructTemplateAttributes", "        values[\"vendor\"] = VENDORS.get(values[\"vendor\"], \"Unknown\")\n        values[\"serial\"] = f\"{values['serial']:08x}\"\n\n        return values\n\n\nStructTemplateAttributes", ["D16.2"])
+M("C16", "raw-24", PE, "            self.data = self.raw[26:]", "            self.data = self.raw[24:]", ["D16.3"])
+M("C16", "sockaddr-zero-udint", CT, "        IPAddress(\"ip_address\"),\n        ULINT,", "        IPAddress(\"ip_address\"),\n        UDINT,", ["D16.1"])
+M("C16", "module-info-decode-invalid", CD, "            if response:\n                return ModuleIdentityObject.decode(response.value)\n            else:\n                raise ResponseError(f\"generic_message did not return valid data - {response.error}\")", "            return ModuleIdentityObject.decode(response.value)", ["D16.5"])
+M("C16", "keyswitch-no-default", LX, "            info[\"keyswitch\"] = KEYSWITCH.get(info[\"status\"][0], {}).get(\n                info[\"status\"][1], \"UNKNOWN\"\n            )", "            info[\"keyswitch\"] = KEYSWITCH[info[\"status\"][0]][info[\"status\"][1]]", ["D16.5"])
+M("C16", "list-identity-no-close", CD, "        identity = plc._list_identity()\n        plc.close()\n        return identity", "        identity = plc._list_identity()\n        return identity", ["D16.5"])
+M("C16", "ip-3", CT, "return ipaddress.IPv4Address(cls._stream_read(stream, 4)).exploded", "return ipaddress.IPv4Address(cls._stream_read(stream, 3)).exploded", ["D16.1"])
+M("C16", "state-uint", CT, "        USINT(\"state\"),", "        UINT(\"state\"),", ["D16.1"])
+M("C16", "product-type-vendor-table", CT, "        values[\"product_type\"] = PRODUCT_TYPES.get(values[\"product_type\"], \"UNKNOWN\")\n        values[\"vendor\"] = VENDORS.get(values[\"vendor\"], \"UNKNOWN\")\n        values[\"serial\"] = f\"{values['serial']:08x}\"\n\n        return values\n\n    @classmethod\n    def _encode", "        values[\"product_type\"] = VENDORS.get(values[\"product_type\"], \"UNKNOWN\")\n        values[\"vendor\"] = VENDORS.get(values[\"vendor\"], \"UNKNOWN\")\n        values[\"serial\"] = f\"{values['serial']:08x}\"\n\n        return values\n\n    @classmethod\n    def _encode", ["D16.2"])
